@@ -187,3 +187,28 @@ Definition g_invb (a : gfile) : bool :=
 Definition orderedb (s : cstate) : bool :=
   let a := gfile_of s in g_invb a && state_eqb s (gconc a).
 
+
+(* ---------- add_block on a file that is merely sound (the theorem is Proofs/AddSafe.v) ----------
+   the region the next block will occupy: it starts at the offset the first unused slot carries *)
+Definition region_free (s : cstate) (off size : Z) : Prop :=
+  Forall (fun e => is_live e = true -> e_off e + e_size e <= off \/ off + size <= e_off e) (tab s).
+Definition region_freeb (s : cstate) (off size : Z) : bool :=
+  forallb (fun e => negb (is_live e) || (e_off e + e_size e <=? off) || (off + size <=? e_off e)) (tab s).
+Definition add_safeb (s : cstate) (size : Z) : bool :=
+  match find_pos is_unused (tab s) with
+  | Some k => let off := e_off (nth_entry k (tab s)) in (base (s_n s) <=? off) && region_freeb s off size
+  | None => false
+  end.
+
+(* ---------- deciding [wf], the property's own soundness conditions (C03), on a parsed file ---------- *)
+Definition in_fileb (s : cstate) (e : entry) : bool :=
+  (base (s_n s) <=? e_off e) && (0 <=? e_size e) && (e_off e + e_size e <=? file_len s).
+Definition disjointb (e1 e2 : entry) : bool :=
+  (e_off e1 + e_size e1 <=? e_off e2) || (e_off e2 + e_size e2 <=? e_off e1).
+Fixpoint pairsb {A} (r : A -> A -> bool) (l : list A) : bool :=
+  match l with [] => true | x :: t => forallb (r x) t && pairsb r t end.
+Definition soundb (s : cstate) : bool :=
+  (zlength (tab s) =? s_n s) &&
+  forallb (fun e => negb (is_live e) || in_fileb s e) (tab s) &&
+  forallb (fun e => negb (is_unused e) || (e_size e =? 0)) (tab s) &&
+  pairsb disjointb (filter is_live (tab s)).
